@@ -245,6 +245,8 @@ def into_attr_text(a, typed_target):
             parts.append(f)
         elif a[f] == "typed":
             parts.append(f"{f}({typed_target})")
+        elif a[f] == "both":
+            parts += [f, f"{f}({typed_target})"]
     return "#[into(" + ", ".join(parts) + ")] " if parts else "#[into] "
 
 
